@@ -477,8 +477,16 @@ def run_history(res, cfg, scratch, rng, tier, strace_budget):
             for _ in range(rng.randint(2, 5)):
                 s.do(gen_write_op(rng, s.model, Profile(update=0, remove=0, update_all=0, remove_all=0, drop_measurement=0)))
         n_ops = rng.randint(3, 6)
-        for step in range(n_ops):
-            op = gen_write_op(rng, s.model, prof)
+        # every entry point that writes is swept in every history, whatever the random ops happen to be: inserts through
+        # a Measurement handle (single and batch) come first
+        from .. import gen as _gen
+
+        fixed = [
+            {"op": "insert_multiple", "via": "h", "m": "m0", "ps": [_gen.gen_point(rng, _gen.MEAS, False) for _ in range(2)], "ps_form": "list"},
+            {"op": "insert", "via": "h", "m": "m1", "p": _gen.gen_point(rng, _gen.MEAS, False)},
+        ]
+        for step in range(n_ops + len(fixed)):
+            op = fixed[step] if step < len(fixed) else gen_write_op(rng, s.model, prof)
             if rng.random() < 0.4 and s.model.points:
                 with quiet_stdout():
                     s.do({"op": rng.choice(["get", "contains"]), "q": ("cmp", "measurement", (), "==", rng.choice(["m0", "m1", "_default"]))})
